@@ -1,20 +1,29 @@
 #!/usr/bin/env python3
-"""Apply a seeded change to /repo, run the pinned suite, its demonstration and the given checks, undo the change.
-usage: seedtest.py <seed dir with patch.diff demo.py> <property> [more properties...]   (prints a JSON summary)"""
+"""Apply a seeded change, run the pinned suite, its demonstration and the given checks, undo the change.
+usage: seedtest.py <seed dir with patch.diff demo.py> <property> [more properties...]   (prints a JSON summary)
+
+By default the change is applied to /repo itself (git apply / git checkout -- .).  With SEED_COPY=1 a scratch git
+worktree of /repo is made under /tmp, the change applied there and the checks pointed at it through BISTURI_REPO
+(for use while another run needs /repo untouched); the worktree is removed afterwards."""
 import sys, os, subprocess, json, re
-d = sys.argv[1]
+d = os.path.abspath(sys.argv[1])
 props = sys.argv[2:]
-env = dict(os.environ, PYTHONPATH='/repo', PYTHONHASHSEED='0')
+COPY = os.environ.get('SEED_COPY') == '1'
+tree = '/tmp/seedrepo_%d' % os.getpid() if COPY else '/repo'
+env = dict(os.environ, PYTHONPATH=tree, PYTHONHASHSEED='0', BISTURI_REPO=tree)
 def sh(cmd, **kw):
     return subprocess.run(cmd, shell=True, stdout=subprocess.PIPE, stderr=subprocess.STDOUT, text=True, env=env, **kw)
 out = {}
 assert sh('git -C /repo status --porcelain').stdout.strip() == '', 'repo not clean'
-out['demo_clean'] = sh(f'/venv/bin/python {d}/demo.py', cwd='/tmp').returncode
+if COPY:
+    a = sh(f'git -C /repo worktree add --detach {tree} HEAD')
+    assert a.returncode == 0, a.stdout
 saved = {p: open(f'/verif/evidence/{p}.json').read() for p in props if os.path.exists(f'/verif/evidence/{p}.json')}
-a = sh(f'git -C /repo apply {d}/patch.diff')
-assert a.returncode == 0, a.stdout
 try:
-    t = sh('cd /repo && /venv/bin/python -m pytest -q -p no:cacheprovider tests')
+    out['demo_clean'] = sh(f'/venv/bin/python {d}/demo.py', cwd='/tmp').returncode
+    a = sh(f'git -C {tree} apply {d}/patch.diff')
+    assert a.returncode == 0, a.stdout
+    t = sh(f'cd {tree} && /venv/bin/python -m pytest -q -p no:cacheprovider tests')
     out['tests'] = t.stdout.strip().split('\n')[-1]
     out['demo_mutated'] = sh(f'/venv/bin/python {d}/demo.py', cwd='/tmp').returncode
     out['checks'] = {}
@@ -23,7 +32,10 @@ try:
         lines = [l for l in r.stdout.split('\n') if l.startswith(('VIOLATION', 'KNOWN-FINDING', '['))]
         out['checks'][p] = dict(exit=r.returncode, lines=[l[:300] for l in lines])
 finally:
-    sh('git -C /repo checkout -- . && git -C /repo clean -fdq bisturi tests')
+    if COPY:
+        sh(f'git -C /repo worktree remove --force {tree}; rm -rf {tree}; git -C /repo worktree prune')
+    else:
+        sh('git -C /repo checkout -- . && git -C /repo clean -fdq bisturi tests')
     for p, text in saved.items():      # evidence describes the unchanged tree only
         open(f'/verif/evidence/{p}.json', 'w').write(text)
 print(json.dumps(out, indent=1))
